@@ -31,6 +31,8 @@ struct Session {
     awaiting_ack: VecDeque<(usize, oneshot::Sender<Result<RxPacket, MqttError>>)>,
     subscriptions: VecDeque<(usize, mpsc::UnboundedSender<RxPacket>)>,
     retrasmit_queue: VecDeque<(usize, Bytes)>,
+    // Identifiers of inbound QoS 2 messages answered with PUBREC and not yet released by PUBREL.
+    unreleased_qos2: Vec<NonZero<u16>>,
 }
 
 struct Connection {
@@ -93,6 +95,7 @@ where
         session.awaiting_ack.clear();
         session.subscriptions.clear();
         session.retrasmit_queue.clear();
+        session.unreleased_qos2.clear();
     }
 
     fn validate_packet_size(connection: &Connection, packet: &[u8]) -> Result<(), MqttError> {
@@ -226,12 +229,25 @@ where
                 let qos = publish.qos;
                 let maybe_packet_id = publish.packet_identifier;
 
+                // A QoS 2 message sent again before its PUBREL is a duplicate: acknowledge, do not deliver.
+                let is_duplicate = match (qos, maybe_packet_id) {
+                    (QoS::ExactlyOnce, Some(packet_id)) => {
+                        let known = session.unreleased_qos2.contains(&packet_id);
+                        if !known {
+                            session.unreleased_qos2.push(packet_id);
+                        }
+                        known
+                    }
+                    _ => false,
+                };
+
                 if let Some(subscription_identifier) =
                     publish
                         .subscription_identifier
                         .map(|subscription_identifier| {
                             NonZero::from(subscription_identifier).get().value() as usize
                         })
+                        .filter(|_| !is_duplicate)
                 {
                     if let Some((_, subscription)) =
                         utils::linear_search_by_key(&session.subscriptions, subscription_identifier)
@@ -325,6 +341,7 @@ where
             }
             RxPacket::Pubrel(pubrel) => {
                 let packet_id = pubrel.packet_identifier;
+                session.unreleased_qos2.retain(|id| *id != packet_id);
                 Self::ack::<PubcompReason>(tx, packet_id).await?
             }
             other => {
@@ -390,6 +407,7 @@ where
                     awaiting_ack: VecDeque::new(),
                     subscriptions: VecDeque::new(),
                     retrasmit_queue: VecDeque::new(),
+                    unreleased_qos2: Vec::new(),
                 },
                 connection: Connection {
                     disconnection_timestamp: None,
